@@ -918,6 +918,9 @@ struct C16 : World {
         check_stdio(o, refok, ref, f.kind, w2);
       }
       faults_run++;
+      // the caller buffer variant right after an export that hit the fault, on the same export context: a failed (or
+      // retried) write to another target must not leak into it ("yield byte-identical data")
+      if (!ctx->failed && ((faults_run & 3) == 1 || &f == &fl.front())) { mem_case(e, pg, refok, ref, ref.size(), (int)(faults_run & 1)); ctx->count("mem_export_right_after_faulted_export"); }
     }
     // "You can call this function repeatedly, it does not change the state of the vbi_export or vbi_page structure."
     if (!ctx->failed && refok) {
